@@ -121,7 +121,8 @@ FUNCS = ["count", "lower", "upper", "length", "max", "min", "sum", "now", "abs",
 
 COLTYPES = ["int", "bigint", "text", "text NOT NULL", "int NOT NULL", "boolean", "text[]", "uuid", "timestamptz NOT NULL", "status", "numeric",
             "int[]", "text[] NOT NULL", "status[]", "status NOT NULL"]
-TABLES = ["authors", "books", "t", "u", "orders", '"order"', '"user"', "s1.items"]
+# "position" is a keyword that needs no quotes as a table name or alias (col_name keyword)
+TABLES = ["authors", "books", "t", "u", "orders", '"order"', '"user"', "s1.items", "position"]
 COLNAMES = ["id", "name", "bio", "author_id", "title", "tags", "created_at", '"order"', '"select"', "status", "n", "a", "b"]
 
 
@@ -197,7 +198,8 @@ class QGen:
         nm = r.choice(self.names_used) if self.names_used and r.random() < 0.2 else r.choice(["x", "y", "val", "lim", "the_id", "q"])
         self.names_used.append(nm)
         if self.style == "arg":
-            return r.choice(["sqlc.arg(%s)", "sqlc.arg('%s')", "sqlc.arg(%s)"]) % nm
+            # the function name is an identifier: the parser folds its case, so every spelling of it is the same call
+            return r.choice(["sqlc.arg(%s)", "sqlc.arg('%s')", "sqlc.arg(%s)", "sqlc.arg(%s)", "SQLC.ARG(%s)", "Sqlc.Arg('%s')"]) % nm
         return "@" + nm + (r.choice(["", "", "::int", "::text"]))
 
     def from_list(self, depth=0):
@@ -206,7 +208,7 @@ class QGen:
         tabs = list(self.s.tables)
         k = r.choice([1, 1, 1, 2, 2, 3])
         items, vis = [], []
-        aliases = ["a", "b", "c", "x", '"order"', "t"]
+        aliases = ["a", "b", "c", "x", '"order"', "t", "position"]
         for i in range(k):
             t = r.choice(tabs)
             if self.corrupt and r.random() < self.corrupt:
@@ -386,13 +388,17 @@ class QGen:
             else:
                 cte, _ = self.select(1, simple=True)
                 ccols = ["id", "name"]
-            if r.random() < 0.2 and nm not in ("authors",):
+            if r.random() < 0.35 and nm not in ("authors",):
                 # data-modifying main statement under a WITH clause: the target of SET / the deleted relation is the
-                # statement's own table, whatever the CTE reads
-                t = r.choice(tabs)
+                # statement's own table, whatever the CTE reads (preferably another table with a column of the same name)
+                cte_tabs = [x for x in tabs if (" FROM %s" % x) in cte]
+                others = [x for x in tabs if x not in cte_tabs] or tabs
+                t = r.choice(others)
                 cols = self.s.tables[t]
+                shared = [c_ for c_ in cols if any(c_ in self.s.tables[x] for x in cte_tabs if x != t)]
                 if r.random() < 0.6:
-                    main = "UPDATE %s SET %s = %s WHERE %s IN (SELECT %s FROM %s)" % (t, r.choice(cols), self.ph(), r.choice(cols), r.choice(ccols), nm)
+                    setc = r.choice(shared) if shared and r.random() < 0.7 else r.choice(cols)
+                    main = "UPDATE %s SET %s = %s WHERE %s IN (SELECT %s FROM %s)" % (t, setc, self.ph(), r.choice(cols), r.choice(ccols), nm)
                 else:
                     main = "DELETE FROM %s WHERE %s IN (SELECT %s FROM %s)" % (t, r.choice(cols), r.choice(ccols), nm)
                 return "WITH %s AS (%s) %s" % (nm, cte, main), "update" if main.startswith("UPDATE") else "delete"
